@@ -7,6 +7,10 @@ Helpers
   arbiter does) / validate / rename / unlink.  It may drop to an unprivileged uid first so that
   kill(pid, 0) against a root-owned process answers EPERM.  The harness always waitpid()s its own
   children (PID 1 in this sandbox does not reap, and a zombie still answers kill(pid, 0)).
+  A command may carry "obj": <name> to address a further Pidfile object of the same process (what Arbiter.reload()
+  has while the `pidfile` setting changes); chdir sets the directory relative names mean.  arbiter_boot /
+  arbiter_reload / arbiter_halt drive the pid file handling of a real gunicorn.arbiter.Arbiter (see
+  _arbiter_for_reload) in the helper.
 
 Crash lab
   `crash_run(...)` forks a child in which the module attributes `gunicorn.pidfile.os`,
@@ -209,8 +213,55 @@ class Gate:
         return w
 
 
+class _NullLog:
+    def __getattr__(self, name):
+        return lambda *a, **kw: None
+
+
+def _arbiter_for_reload(fname):
+    """A real gunicorn.arbiter.Arbiter (real __init__, real setup(), real reload()) around a stand-in application whose
+    configuration is a real gunicorn Config with workers = 0 and nothing to listen on: what is left of reload() is what it
+    does with the pid file.  It never forks: spawning is a no-op here (helpers must stay single processes)."""
+    from gunicorn.arbiter import Arbiter
+    from gunicorn.config import Config
+
+    class App:
+        def __init__(self):
+            self.cfg = Config()
+            self.cfg.set("workers", 0)
+            self.cfg.set("errorlog", "/dev/null")
+            self.cfg.set("pidfile", fname)
+
+        def reload(self):               # the harness edits self.cfg in place before it asks for the reload
+            pass
+
+        def wsgi(self):
+            return None
+
+    class Lab(Arbiter):
+        LISTENERS = []
+        WORKERS = {}
+
+        def spawn_worker(self):
+            return None
+
+        def spawn_workers(self):
+            return None
+
+    a = Lab(App())
+    a.log = _NullLog()
+    # what Arbiter.start() does about the pid file
+    a.pid = os.getpid()
+    if a.cfg.pidfile is not None:
+        a.pidfile = gp.Pidfile(a.cfg.pidfile)
+        a.pidfile.create(a.pid)
+    return a
+
+
 def _helper_loop(rfd, wfd):
     P = None
+    objs = {}                           # further Pidfile objects of this process, by name (cmd["obj"]); None = the first one
+    arb = None
     lines = _Lines(rfd)
     gate = None
     while True:
@@ -219,6 +270,9 @@ def _helper_loop(rfd, wfd):
             return
         op = cmd["op"]
         out = {"ok": True, "ret": None}
+        first = P
+        if cmd.get("obj") is not None:
+            P = objs.get(cmd["obj"])
         if cmd.get("gated"):
             if gate is None:
                 gate = Gate(lines, wfd)
@@ -228,6 +282,19 @@ def _helper_loop(rfd, wfd):
         try:
             if op == "new":
                 P = gp.Pidfile(cmd["fname"])
+                if cmd.get("obj") is not None:
+                    objs[cmd["obj"]] = P
+            elif op == "arbiter_boot":
+                arb = None
+                arb = _arbiter_for_reload(cmd["fname"])
+            elif op == "arbiter_reload":
+                # the administrator edited the setting; SIGHUP
+                arb.app.cfg.set("pidfile", cmd["fname"])
+                arb.reload()
+            elif op == "arbiter_halt":
+                # what Arbiter.halt() / stop() do about the pid file
+                if arb.pidfile is not None:
+                    arb.pidfile.unlink()
             elif op == "create":
                 out["ret"] = P.create(os.getpid())
             elif op == "validate":
@@ -247,9 +314,14 @@ def _helper_loop(rfd, wfd):
         if gate is not None:
             gate.armed = False
             out["calls"] = gate.n
-        if P is not None:
+        if op.startswith("arbiter_"):
+            pf = getattr(arb, "pidfile", None)
+            out["arbiter_fname"] = getattr(pf, "fname", None)
+        elif P is not None:
             out["fname"] = P.fname
             out["pid_attr"] = P.pid if isinstance(P.pid, int) else repr(P.pid)
+        if cmd.get("obj") is not None:
+            P = first
         if not isinstance(out.get("ret"), (int, type(None))):
             out["ret"] = repr(out["ret"])
         os.write(wfd, (json.dumps(out) + "\n").encode())
